@@ -207,6 +207,11 @@ func propC11(p *Prog, r *Report) {
 	c11Framing(p, r)
 	r.Rule("C11.g", "chunk discipline: the GetFile handler sends buf[:n] of the Read that filled the buffer; the stream writer sends a non-empty remainder before CloseAndRecv and returns every Send / CloseAndRecv error")
 	c11Chunks(p, r, "C11.g")
+	c11CtxFromCaller(p, r, "C11.c")
+	r.Rule("C11.h", "write order is wire order: in the stream writer's Write no Send takes its payload from the argument of the current call while earlier bytes may still be buffered (the buffer is tested or drained first)")
+	c11WriterFIFO(p, r, "C11.h")
+	r.Rule("C11.i", "no transport option lowers the gRPC message size limit below the library default (keys are unbounded and travel in one message)")
+	c11MessageLimits(p, r, "C11.i")
 }
 
 func c11Tables(p *Prog, r *Report) {
